@@ -226,7 +226,7 @@ struct RealSpace {
     poly: Vec<(f64, f64)>,
 }
 
-fn real_reference(text: &str, is_cte: bool) -> Option<(f64, Vec<RealSpace>, Vec<(String, String, usize)>)> {
+fn real_reference(text: &str, is_cte: bool) -> Option<(f64, Vec<RealSpace>, Vec<(String, String, usize)>, Vec<(String, f64)>)> {
     // returns (global deviation, spaces, walls (name, space, vertex index))
     let bdl = if is_cte {
         text.to_string()
@@ -267,8 +267,18 @@ fn real_reference(text: &str, is_cte: bool) -> Option<(f64, Vec<RealSpace>, Vec<
     }
     let mut spaces = vec![];
     let mut walls = vec![];
+    // opaque elements that carry a polygon of their own: (name, area of that polygon)
+    let mut own_polys: Vec<(String, f64)> = vec![];
+    let shoelace = |p: &Vec<(f64, f64)>| -> f64 { (0..p.len()).map(|i| p[i].0 * p[(i + 1) % p.len()].1 - p[i].1 * p[(i + 1) % p.len()].0).sum::<f64>().abs() / 2.0 };
     let (mut cur_floor, mut cur_space) = (String::new(), String::new());
     for b in &lx.blocks {
+        if ["EXTERIOR-WALL", "INTERIOR-WALL", "UNDERGROUND-WALL", "ROOF"].contains(&b.btype.as_str()) {
+            if let Some(p) = st(b, "POLYGON").and_then(|n| polys.get(&n)) {
+                if p.len() >= 3 {
+                    own_polys.push((b.name.clone(), shoelace(p)));
+                }
+            }
+        }
         match b.btype.as_str() {
             "FLOOR" => cur_floor = b.name.clone(),
             "SPACE" => {
@@ -289,15 +299,24 @@ fn real_reference(text: &str, is_cte: bool) -> Option<(f64, Vec<RealSpace>, Vec<
             _ => {}
         }
     }
-    Some((dev, spaces, walls))
+    Some((dev, spaces, walls, own_polys))
 }
 
 fn check_real(ctx: &Ctx, path: &str, is_cte: bool, acc: &mut Acc) {
     let text = if is_cte { corpus::read_latin1(path) } else { corpus::read_utf8(path) };
     let Outcome::Ok(m) = corpus::convert_text(&text, is_cte) else { return };
-    let Some((dev, spaces, walls)) = real_reference(&text, is_cte) else { return };
+    let Some((dev, spaces, walls, own_polys)) = real_reference(&text, is_cte) else { return };
     acc.n += 1;
     let fname = path.rsplit('/').next().unwrap().to_string();
+    // every element defined by a polygon of its own has the area of that polygon
+    for (wname, a_src) in &own_polys {
+        let Some(w) = m.walls.iter().find(|w| w.name == *wname) else { continue };
+        let a = HasSurface::area(&w.geometry.polygon) as f64;
+        acc.walls += 1;
+        if (a - a_src).abs() > 0.011 + 1e-3 * a_src {
+            ctx.violation("geometry:area:element-with-own-polygon", &format!("{}: element {} has {} m2, the polygon it names has {:.3} m2", fname, wname, a, a_src), json!({"part": "real", "file": fname, "wall": wname, "area": a, "source_polygon_area": a_src}));
+        }
+    }
     for (wname, sname, v) in walls {
         let Some(sp) = spaces.iter().find(|s| s.name == sname) else { continue };
         if sp.poly.len() < v || sp.poly.is_empty() {
@@ -418,7 +437,7 @@ pub fn run(ctx: &Ctx) -> i32 {
     ctx.sample(json!({"part": "generated", "spec": format!("{:?}", specs[specs.len() / 2])}));
     ctx.finish(
         "model_checking",
-        "generated buildings over the product outline{rectangle, L, triangle, convex pentagon, U, rectangle with a corner written twice} x storey height x storeys{1,2} x space offset{(0,0),(3,-2) and 1.2 m up} x space azimuth{0,90,30} x global deviation{0,90,180,290,37.5 (3 values in quick)} x window{none, setback 0, 0.2} x shade{none, rectangle vertical / facing down / facing up / sloped, vertices vertical/45/horizontal, a sloped cross with twelve corners} (shade corners compared in their order around the outline) (+ one polygon-defined 30-degree roof per combination), printed as BDL (every other building with an explicit plus sign on its positive placement numbers) into the cubo.ctehexml wrapper and converted by the real parser + converter: every wall/floor/ceiling corner pushed through to_global_coords_matrix must lie within 1 cm (+1e-4 |coord|) of the corner computed from the BDL conventions, outward normals, areas, window x/y/w/h/setback, shade corners; the overhang / fin shades of a window defined alone and together (each must not depend on the others); rotation covariance for every 5th building and every real project with theta in {15, 90, 123.4, 270, -30} (the turned deviation is written as it comes: above 360 or below 0) (+ one VERIF_SEED-derived angle, labelled sampling): positions turn clockwise by theta, azimuths shift by -theta, areas/volumes/K/n50 unchanged; SPACE-Vn walls of the real projects against the same reference (calibration: max distance reported for spaces without rotation); non-trivial = walls compared",
+        "generated buildings over the product outline{rectangle, L, triangle, convex pentagon, U, rectangle with a corner written twice} x storey height x storeys{1,2} x space offset{(0,0),(3,-2) and 1.2 m up} x space azimuth{0,90,30} x global deviation{0,90,180,290,37.5 (3 values in quick)} x window{none, setback 0, 0.2} x shade{none, rectangle vertical / facing down / facing up / sloped, vertices vertical/45/horizontal, a sloped cross with twelve corners} (shade corners compared in their order around the outline) (+ one polygon-defined 30-degree roof per combination), printed as BDL (every other building with an explicit plus sign on its positive placement numbers) into the cubo.ctehexml wrapper and converted by the real parser + converter: every wall/floor/ceiling corner pushed through to_global_coords_matrix must lie within 1 cm (+1e-4 |coord|) of the corner computed from the BDL conventions, outward normals, areas, window x/y/w/h/setback, shade corners; the overhang / fin shades of a window defined alone and together (each must not depend on the others); rotation covariance for every 5th building and every real project with theta in {15, 90, 123.4, 270, -30} (the turned deviation is written as it comes: above 360 or below 0) (+ one VERIF_SEED-derived angle, labelled sampling): positions turn clockwise by theta, azimuths shift by -theta, areas/volumes/K/n50 unchanged; SPACE-Vn walls of the real projects against the same reference, and every element of a real project that names a polygon of its own has the area of that polygon (calibration: max distance reported for spaces without rotation); non-trivial = walls compared",
         true,
         json!({}),
     )
